@@ -108,6 +108,9 @@ SPELLS = {"clean": ("", ""), "dotslash": ("./", ""), "dslash": ("d//", "d/"), "d
 SPELL_NAMES = sorted(SPELLS)
 
 
+VOLUME = 700
+
+
 def render(mlr, hist, kind, mode, pre, block, form, spell="clean"):
     if form == "split2":
         return render_split2(mlr, hist, kind, mode), ""
@@ -305,6 +308,18 @@ def run(tier, seed):
                 runs.append((c, h, "pipe"))
             if block == 1 and not pre and (thorough or n % 2 == 0):
                 runs.append((c, h, "split2"))       # two group-by fields, values that need escaping in file names
+    # volume: the same histories with every write standing for VOLUME consecutive records to that target (a target that
+    # receives hundreds of records while it is open; record ids r*1000+j keep the order observable)
+    vol = [(c, h, form) for (c, h, form) in runs if c[3] == 1 and form not in ("split2",) and len(h) >= 3 and len({t for t, r in h}) >= 2]
+    rnd.shuffle(vol)
+    seen_forms = {}
+    for c, h, form in vol:
+        key = (c[0], c[1], form)
+        if seen_forms.get(key, 0) >= (3 if thorough else 1):
+            continue
+        seen_forms[key] = seen_forms.get(key, 0) + 1
+        runs.append((c, [[t, r * 1000 + j] for t, r in h for j in range(VOLUME)], form))
+    cov["volume_runs"] = sum(seen_forms.values())
     cases, prefixes = [], []
     for n, ((kind, mode, k, block, maxw, pre), h, form) in enumerate(runs):
         # the spelling of the paths rotates over the runs (every second run keeps the plain one)
